@@ -114,6 +114,29 @@ theorem C29_expired_copy (cfg : RunConfig) (p : Policy) (bb now : Nat) (h : bb <
   simp only [tryUpdateOutcome, this]
   cases p <;> decide
 
+/-- A CA whose rpkiNotify URI is rejected as dubious still announces RRDP: the load is
+`unavailable` (whatever is stored, whatever the server would say) and the table's `unavailable`
+line applies — nothing under `never`, rsync (if enabled) under `new` and `stale`. It is *not*
+treated like a CA without rpkiNotify, which would get rsync under every policy. -/
+theorem C29_dubious_notify (cfg : RunConfig) (p : Policy) (rs ok : Bool) (stored : Option Nat)
+    (now : Nat) :
+    loadOutcome cfg true ok stored now = .unavailable ∧
+    repository p true rs true (loadOutcome cfg true ok stored now) =
+      (if p = .never then .none else if rs = true then .rsync else .none) ∧
+    (p = .never → rs = true →
+      repository p true rs true (loadOutcome cfg true ok stored now) ≠ repository p true rs false .unavailable) := by
+  refine ⟨rfl, ?_, ?_⟩
+  · simp only [loadOutcome, if_true]
+    cases p <;> cases rs <;> decide
+  · intro hp hr
+    subst hp hr
+    simp only [loadOutcome, if_true]
+    decide
+
+/-- Without rejection `loadOutcome` is `try_update`'s classification. -/
+theorem C29_not_rejected (cfg : RunConfig) (ok : Bool) (stored : Option Nat) (now : Nat) :
+    loadOutcome cfg false ok stored now = tryUpdateOutcome cfg ok stored now := rfl
+
 example : tryUpdateOutcome ⟨600, 3600⟩ false (some 10000) 9000 = .current := by decide
 example : tryUpdateOutcome ⟨600, 600⟩ false (some 10000) 1000 = .current := by decide
 example : tryUpdateOutcome ⟨600, 3600⟩ false (some 10000) 10000 = .current := by decide
